@@ -359,6 +359,44 @@ func (w *World) initialValue(lv *T) (*T, bool) {
 	if root.Op == "global" && !w.globalRO[root.S] {
 		return nil, false
 	}
-	v, ok := w.globalInit[lv.Key()]
-	return v, ok
+	if v, ok := w.globalInit[lv.Key()]; ok {
+		return v, true
+	}
+	// a field of an element the initialiser stored as one struct value
+	if lv.Op == "sel" {
+		if pv, ok := w.initialValue(lv.A[0]); ok && pv.Op == "struct" {
+			return mksel(pv, lv.S, lv.Ty), true
+		}
+	}
+	return nil, false
+}
+
+// initialised: lv lies inside a literal the package initialiser allocated
+// (an array behind a package-level slice or table), which nothing else writes.
+func (w *World) initialised(lv *T) bool {
+	root := lv
+	for root.Op == "sel" || root.Op == "elem" {
+		root = root.A[0]
+	}
+	w.initialValue(root) // make sure the tables are loaded
+	if root.Op == "global" {
+		return w.globalRO[root.S]
+	}
+	return root.Op == "new" && strings.HasPrefix(root.S, "init.")
+}
+
+// constPath: every index on the way to lv is a constant.
+func constPath(lv *T) bool {
+	for lv.Op == "sel" || lv.Op == "elem" {
+		if lv.Op == "elem" && !lv.A[1].IsConst() {
+			return false
+		}
+		lv = lv.A[0]
+	}
+	return true
+}
+
+func (w *World) readOnlyGlobal(name string) bool {
+	w.initialValue(&T{Op: "global", S: name})
+	return w.globalRO[name]
 }
